@@ -10,7 +10,8 @@ VALS[11] = VALS[1] + np.array([[1e-9, 0.0], [0.0, -1e-9], [1e-10, 0.0]])
 S = np.array([[0.0, 0], [4, 0], [4, 3], [0, 4], [2, 2]])
 T = np.array([[0.0, 0], [5, 1], [4, 4], [-1, 3], [2, 1]])
 TRIS = np.array([[0, 1, 4], [1, 2, 4], [2, 3, 4], [3, 0, 4]])
-KINDS = ["PiecewiseAffine", "PythonPWA", "ThinPlateSplines", "Affine", "Chain", "AlignmentSimilarity", "Homogeneous", "WithDimsList", "WithDimsSlice"]
+KINDS = ["PiecewiseAffine", "PythonPWA", "ThinPlateSplines", "Affine", "Chain", "AlignmentSimilarity", "Homogeneous", "WithDimsList", "WithDimsSlice",
+         "ThinPlateSplines(R2LogRRBF)"]
 # whole-number points inside the source domain: the same VALUES as int64 / int32 / float32 arrays, batched or not
 WHOLE = np.array([[1, 1], [3, 1], [2, 2], [1, 2], [2, 1], [3, 2], [1, 3]])
 
@@ -26,6 +27,10 @@ def make(kind):
         return PythonPWA(TriMesh(S, trilist=TRIS), PointCloud(T))
     if kind == "ThinPlateSplines":
         return mt.ThinPlateSplines(PointCloud(S), PointCloud(T))
+    if kind == "ThinPlateSplines(R2LogRRBF)":
+        from menpo.transform import rbf
+
+        return mt.ThinPlateSplines(PointCloud(S), PointCloud(T), kernel=rbf.R2LogRRBF(S.copy()))
     if kind == "Affine":
         return mt.Affine(np.array([[2.0, 1, 3], [-1, 3, 0], [0, 0, 1]]))
     if kind == "Homogeneous":
@@ -146,6 +151,25 @@ def replay(args):
         if got[0] == "ok" and ev["op"] == "apply" and np.shares_memory(got[1], arrays[a]):
             return {"sig": None, "step": k, "kind": kind, "op": ev["op"], "array": a, "value": v, "batch": ev["batch"],
                     "what": "the result shares memory with the array that was passed: editing either changes the other"}
+    # points that sit exactly ON the control points (where the radial kernels are singular), with OTHER transforms applied to the same
+    # points in between and their results kept: the answer is finite and the same every time
+    if kind.startswith("ThinPlateSplines"):
+        import menpo.transform as mt
+        from menpo.shape import PointCloud
+        from menpo.transform import rbf
+
+        onc = S.copy()
+        first = np.asarray(t.apply(onc.copy()))
+        kept = []
+        for _ in range(3):
+            kept.append(mt.ThinPlateSplines(PointCloud(S), PointCloud(T)).apply(onc.copy()))
+            kept.append(rbf.R2LogR2RBF(S.copy()).apply(onc.copy()))
+            again = np.asarray(t.apply(onc.copy()))
+            if not np.all(np.isfinite(again)) or not np.array_equal(again, first):
+                return {"sig": None, "kind": kind, "what": "apply on points that coincide with the control points changes (or is not finite) after other transforms were applied in between",
+                        "got": again.tolist(), "want": first.tolist()}
+        if not np.allclose(first, T, atol=1e-8 * 10):
+            return {"sig": None, "kind": kind, "what": "the spline does not send its control points onto the target points"}
     # no points at all is a legal input: the answer is no points, whatever the batch size
     try:
         e0 = np.asarray(t.apply(np.zeros((0, 2))))
